@@ -3,7 +3,9 @@
 (* decode, the language views to pass, and the set of acceptable pre-images   *)
 (* (empty = no hash may be produced).  Real transactions: the pre-image       *)
 (* assembled from their raw parts (file named by the environment variable     *)
-(* PARTS, written by `pv-cbor scriptdata-parts`).                             *)
+(* PARTS, written by `pv-cbor scriptdata-parts`); the same for transactions   *)
+(* built by pallas-txbuilder: the redeemer / datum bytes AS EMITTED in the    *)
+(* built witness set, the staged language views.                              *)
 EXTENDS ScriptIntegrityDom, Json, IOUtils
 
 LangSeq(L) == LET o == Ascending(DOMAIN L) IN [i \in 1..Len(o) |-> [lang |-> o[i], costs |-> L[o[i]]]]
@@ -21,6 +23,9 @@ Parts == IF "PARTS" \in DOMAIN IOEnv /\ IOEnv.PARTS # "" THEN ndJsonDeserialize(
 ViewsOf(p) == LET ls == p.langs IN
     [l \in {ls[i].lang : i \in 1..Len(ls)} |->
         LET e == CHOOSE i \in 1..Len(ls) : ls[i].lang = l IN [k \in 1..Len(ls[e].costs) |-> Den(ls[e].costs[k])]]
+\* the formula applied to raw parts: no hash without redeemers and datums; no views without redeemers
+RawAcceptable(p) == IF p.r = <<>> /\ p.d = <<>> THEN {}
+                    ELSE {PreRaw(p.r, p.d, IF p.r = <<>> THEN NoViews ELSE ViewsOf(p))}
 ASSUME \A i \in 1..Len(Parts) :
-          PrintT(<<"VEC", ToJson([kind |-> "real", name |-> Parts[i].name, pre |-> {PreRaw(Parts[i].r, Parts[i].d, ViewsOf(Parts[i]))}])>>)
+          PrintT(<<"VEC", ToJson([kind |-> "real", name |-> Parts[i].name, pre |-> RawAcceptable(Parts[i])])>>)
 =============================================================================
